@@ -1007,8 +1007,10 @@ class KconfigGrammar:
             return_file = ""
             split_lines_idxs: List[int] = []
 
-            # Indentation of the "help" keyword while the lines of its help text are being copied
+            # Indentation of the "help" keyword while the lines of its help text are being copied,
+            # and the indentation of the first line of that text (None until it has been seen)
             help_keyword_indent: Optional[int] = None
+            help_block_indent: Optional[int] = None
 
             for line_idx, line in enumerate(lines):
                 line = line.expandtabs()
@@ -1018,17 +1020,23 @@ class KconfigGrammar:
                     continue
 
                 # A help text is free text: '#' does not start a comment there and nothing is merged.
-                # It consists of the lines indented more than the "help" keyword (see KconfigHelpBlock).
+                # Its first line is indented more than the "help" keyword and it consists of the lines
+                # indented at least as much as that first line (see KconfigHelpBlock).
                 if help_keyword_indent is not None and line_idx not in split_lines_idxs:
-                    if len(line) - len(line.lstrip()) > help_keyword_indent:
+                    indent = len(line) - len(line.lstrip())
+                    if help_block_indent is None and indent > help_keyword_indent:
+                        help_block_indent = indent
+                    if help_block_indent is not None and indent >= help_block_indent:
                         return_file += line if line.endswith("\n") else line + "\n"
                         continue
                     help_keyword_indent = None
+                    help_block_indent = None
 
                 # Remove inline comments
                 line = remove_inline_comments(line)
                 if line.strip() == "help":
                     help_keyword_indent = len(line) - len(line.lstrip())
+                    help_block_indent = None
 
                 # Merge lines split with '\' and place blank lines to preserve line numbering.
                 if line_idx in split_lines_idxs:
